@@ -87,8 +87,18 @@ type Repo interface {
 type BlobOpt func(*blobConfig) error
 
 type blobConfig struct {
-	algo   digest.Algorithm
-	expect digest.Digest
+	algo     digest.Algorithm
+	expect   digest.Digest
+	internal bool
+}
+
+// BlobInternal is used for content the registry writes itself and completes within the same request (a manifest, a referrers response).
+// It is not an upload session of a client: it cannot be resumed, is not evicted or expired, and does not count against the session limit.
+func BlobInternal() BlobOpt {
+	return func(bc *blobConfig) error {
+		bc.internal = true
+		return nil
+	}
 }
 
 func BlobWithAlgorithm(a digest.Algorithm) BlobOpt {
@@ -266,7 +276,7 @@ func indexIngest(repo Repo, index *types.Index, conf config.Config, locked bool)
 			}
 			dig := digest.Canonical.FromBytes(respRaw)
 			// the repo lock may be held by the caller, use the internal method
-			bc, _, err := repo.blobCreate(locked, BlobWithDigest(dig))
+			bc, _, err := repo.blobCreate(locked, BlobWithDigest(dig), BlobInternal())
 			if err != nil && errors.Is(err, types.ErrReadOnly) {
 				// a read-only store cannot save a regenerated response, the fallback tags with referrers of this subject are left in place
 				skipped[subj] = true
